@@ -478,6 +478,11 @@ def _left_to_inner_graph(
         return False
     if param in state.values or param in provided_values or param in graph._bound:
         return False
+    if not node.has_default_for(param):
+        # nothing inside resolves it: the value comes from outside like any other
+        # input (e.g. a binding surfaced by a sibling nested graph, which the
+        # outer input spec reports for this name)
+        return False
     map_config = node.map_config
     return not (map_config and param in map_config[0])
 
